@@ -108,6 +108,34 @@ pub fn replay_item(out: &mut Out, bv: &Value, rng: &mut Rng, n: usize) {
         _ => {
             let spell = name;
             if cls == "f1" {
+                // the function of a simple operator expression of the placeholder (a rewrite that looks through the argument -
+                // sqrt(x^2) = |x| - loses the overflow, underflow or rounding of the inner operation)
+                if e != "i64" {
+                    let inner: [(&str, fn() -> T); 8] = [
+                        ("@^2", || T::Bin("pow".into(), Box::new(T::Ans(3)), Box::new(T::Num(5)))),
+                        ("@²", || T::PSup(Box::new(T::Ans(3)), 4)),
+                        ("@*@", || T::Bin("mul".into(), Box::new(T::Ans(3)), Box::new(T::Ans(5)))),
+                        ("@/2", || T::Bin("div".into(), Box::new(T::Ans(3)), Box::new(T::Num(5)))),
+                        ("2/@", || T::Bin("div".into(), Box::new(T::Num(3)), Box::new(T::Ans(5)))),
+                        ("@+2", || T::Bin("add".into(), Box::new(T::Ans(3)), Box::new(T::Num(5)))),
+                        ("@-@", || T::Bin("sub".into(), Box::new(T::Ans(3)), Box::new(T::Ans(5)))),
+                        ("-@", || T::Neg(Box::new(T::Ans(4)))),
+                    ];
+                    for x in [1e200f64, -1e200, 1e-200, 1.5e154, 1e-160, 3.0, -0.5, 0.0, 9007199254740993.0, 1e19] {
+                        for ph in phs_of(e, x) {
+                            for (txt, mk) in inner.iter() {
+                                let mut asg = Asg::default();
+                                asg.fns.insert(1, func.to_string());
+                                asg.lits.insert(5, ("2".to_string(), false));
+                                asg.lits.insert(3, ("2".to_string(), false));
+                                asg.sups.insert(4, "2".to_string());
+                                let t = T::Call("f1".into(), 1, vec![mk()]);
+                                let exp = expected(e, &t, &asg, &ph);
+                                checked_call(out, e, &format!("{}({})", spell, txt), &ph, Some(&exp), json!({"v": "accept"}), true, &ctx);
+                            }
+                        }
+                    }
+                }
                 // eval_complex: next to the branch points +-1 and +-i (a series or a logarithm form that is good on one side of a
                 // threshold loses its digits there), off the cuts
                 if e == "cpx" {
